@@ -133,7 +133,8 @@ CHECKS = {
             "dt_strfdt/strfd/strft/strfdtdur with buffers of 1..32 bytes; every (format, bsz) of Buf and all pairs of 56 real tokens x bsz 1..23; runs of "
             "15..5000 identical bytes; 10 tools with the strings as value, -f, -i, stdin line, duration, expression, round spec, increment, zone name, escaped "
             "format, every modifier x specifier letter alone and at the 254/250-byte edge, formats of 246..258 bytes ending in a specifier, streams around the "
-            "16384-line chunk limit; SafeTrace.tla demands the token count and end offset Lex.tla computes for every string; the in-place escape processor of -e "
+            "16384-line chunk limit; SafeTrace.tla demands the token count and end offset Lex.tla computes for every string; "
+            "the text of every real token cut at every position and parsed from an exact-size block; the in-place escape processor of -e "
             "is Unescape.tla (Safe, NoNul, Meaning, Finishes; off-by-one table bound refuted), the real dt_io_unescape on 4.7k|37k model strings + 4k|31k byte strings validated by UnescapeTrace.tla",
             "no proof of memory safety: ASan/UBSan-bounds on the explored inputs; C strings without embedded NUL; assertion failures count as violations", "5 C10"),
 }
